@@ -85,16 +85,23 @@ type subCfg struct {
 	late bool
 	onF  bool // OnFiltered set
 	onT  bool // OnTimeout set
+	quit bool // closed while publishing is under way (before the late subscribers join)
 }
+
+// sizes overrides the random dimensions of a C06 round (size sweep: thresholds the random rounds never cross)
+type sizes struct{ S, P, N, cap int }
 
 func (c subCfg) accepts(m int) bool { return c.mod == 0 || m%c.mod == c.rem }
 
 // ---------- C06: exact multiset per subscriber ----------
 
-func roundC06(rng *rand.Rand, rep *report, round int, seed int64) {
+func roundC06(rng *rand.Rand, rep *report, round int, seed int64, sz *sizes) {
 	S := 1 + rng.Intn(8)
 	P := 1 + rng.Intn(8)
 	N := 10 + rng.Intn(150)
+	if sz != nil {
+		S, P, N = sz.S, sz.P, sz.N
+	}
 	pub := publisher.NewPublication[int]()
 	cfgs := make([]subCfg, S)
 	subs := make([]*publisher.Subscriber[int], S)
@@ -123,13 +130,19 @@ func roundC06(rng *rand.Rand, rep *report, round int, seed int64) {
 			defer rwg.Done()
 			for {
 				select {
-				case v := <-ch:
+				case v, ok := <-ch:
+					if !ok {
+						return // closed (a subscriber that quits)
+					}
 					got[i] = append(got[i], v)
 				case <-stop:
 					// final sweep: whatever is still buffered
 					for {
 						select {
-						case v := <-ch:
+						case v, ok := <-ch:
+							if !ok {
+								return
+							}
 							got[i] = append(got[i], v)
 						default:
 							return
@@ -142,6 +155,12 @@ func roundC06(rng *rand.Rand, rep *report, round int, seed int64) {
 	nLate := 0
 	for i := range cfgs {
 		cfgs[i] = subCfg{cap: rng.Intn(5)}
+		if sz != nil {
+			cfgs[i].cap = sz.cap
+			if i%3 == 1 {
+				cfgs[i].cap = sz.cap / 2
+			}
+		}
 		if rng.Intn(3) > 0 {
 			cfgs[i].mod = 2 + rng.Intn(3)
 			cfgs[i].rem = rng.Intn(cfgs[i].mod)
@@ -152,7 +171,13 @@ func roundC06(rng *rand.Rand, rep *report, round int, seed int64) {
 		}
 		cfgs[i].onF = rng.Intn(2) == 0
 		cfgs[i].onT = rng.Intn(2) == 0
+		// churn: some of the initial subscribers (never the last one) quit while publishing is under way and
+		// before the late ones join; everybody else must be unaffected by that
+		if !cfgs[i].late && i < S-1 && rng.Intn(5) == 0 {
+			cfgs[i].quit = true
+		}
 	}
+	nQuit := 0
 	for i := range cfgs {
 		if !cfgs[i].late {
 			startSub(i)
@@ -173,6 +198,13 @@ func roundC06(rng *rand.Rand, rep *report, round int, seed int64) {
 				}
 			}
 		}(p)
+	}
+	for i := range cfgs {
+		if cfgs[i].quit {
+			time.Sleep(time.Duration(rng.Intn(200)) * time.Microsecond)
+			subs[i].Close()
+			nQuit++
+		}
 	}
 	// late subscribers join while publishing is going on
 	for i := range cfgs {
@@ -218,7 +250,7 @@ func roundC06(rng *rand.Rand, rep *report, round int, seed int64) {
 				fmt.Sprintf("subscriber %d: %d OnTimeout calls", i, nTimedOut[i].Load()), "c06-stress:timeout", round, seed})
 			return
 		}
-		if !c.late {
+		if !c.late && !c.quit {
 			// subscribed during every Publish: exactly the accepted messages
 			want := 0
 			for p := 0; p < P; p++ {
@@ -245,13 +277,19 @@ func roundC06(rng *rand.Rand, rep *report, round int, seed int64) {
 				rep.Histogram["subscribers-filter+callbacks"]++
 			}
 		} else {
-			rep.Histogram["pairs-late-subscriber"] += len(got[i])
+			rep.Histogram["pairs-late-or-quitting-subscriber"] += len(got[i])
 		}
 	}
 	rep.Nontrivial++
 	rep.Histogram["rounds"]++
+	if nQuit > 0 && nLate > 0 {
+		rep.Histogram["rounds-with-quit-then-subscribe"]++
+	}
+	if sz != nil {
+		rep.Histogram[fmt.Sprintf("sweep S=%d cap=%d msgs=%d", S, sz.cap, P*N)]++
+	}
 	if len(rep.Samples) < 4 {
-		rep.Samples = append(rep.Samples, fmt.Sprintf("S=%d subscribers (%d late), P=%d publishers x N=%d messages", S, nLate, P, N))
+		rep.Samples = append(rep.Samples, fmt.Sprintf("S=%d subscribers (%d late, %d quitting), P=%d publishers x N=%d messages", S, nLate, nQuit, P, N))
 	}
 }
 
@@ -554,6 +592,110 @@ func burstC15(rng *rand.Rand, rep *report, trials int, seed int64) {
 	rep.Samples = append(rep.Samples, fmt.Sprintf("%d bursts of 8-16 simultaneous Publish calls onto a never-read buffer of 1-3 (timeout 60s), every call under 2s", trials))
 }
 
+// bigBurstC15: thousands of messages outstanding on subscribers that are not receiving yet (60s timeouts):
+// Publish stays fast, nothing is given up before the subscriber's own timeout (OnTimeout must not run at all),
+// and once the subscribers start receiving every single message arrives.  Crosses any plausible internal limit
+// on pending deliveries per subscriber.
+func bigBurstC15(rng *rand.Rand, rep *report, N int, seed int64) {
+	P := 1 + rng.Intn(4)
+	pub := publisher.NewPublication[int]()
+	type bs struct {
+		sub    *publisher.Subscriber[int]
+		cap    int
+		early  atomic.Int64
+		filter int // 0 none, k: accept m%k==0
+	}
+	mk := func(c, filter int) *bs {
+		b := &bs{cap: c, filter: filter}
+		opts := []publisher.SubscriberOption[int]{publisher.WithTimeout[int](60 * time.Second),
+			publisher.OnTimeout(func(m int) { b.early.Add(1) })}
+		if filter != 0 {
+			opts = append(opts, publisher.WithFilter(func(m int) bool { return m%filter == 0 }))
+		}
+		b.sub = pub.Subscribe(c, opts...)
+		return b
+	}
+	subs := []*bs{mk(rng.Intn(9), 0), mk(0, 0), mk(1+rng.Intn(64), 2)}
+	var maxLat atomic.Int64
+	var wg sync.WaitGroup
+	per := N / P
+	for p := 0; p < P; p++ {
+		wg.Add(1)
+		go func() {
+			defer wg.Done()
+			for k := 0; k < per; k++ {
+				t0 := time.Now()
+				pub.Publish(p*per + k + 1)
+				if d := int64(time.Since(t0)); d > maxLat.Load() {
+					maxLat.Store(d)
+				}
+			}
+		}()
+	}
+	done := make(chan struct{})
+	go func() { wg.Wait(); close(done) }()
+	select {
+	case <-done:
+	case <-time.After(30 * time.Second):
+		rep.Failures = append(rep.Failures, failure{"Publish blocks when subscribers do not receive",
+			fmt.Sprintf("big burst: %d messages to 3 never-receiving subscribers not published after 30s", P*per), "c15-stress:publish-blocks", 0, seed})
+		return
+	}
+	if time.Duration(maxLat.Load()) > 2*time.Second {
+		rep.Failures = append(rep.Failures, failure{"Publish blocks when subscribers do not receive",
+			fmt.Sprintf("big burst: slowest Publish call took %v", time.Duration(maxLat.Load())), "c15-stress:publish-blocks", 0, seed})
+		return
+	}
+	total := P * per
+	// now the subscribers start receiving: everything published must arrive, nothing may have been given up
+	for i, b := range subs {
+		want := total
+		if b.filter != 0 {
+			want = total / b.filter
+		}
+		seen := map[int]bool{}
+		deadline := time.After(60 * time.Second)
+	recv:
+		for len(seen) < want {
+			select {
+			case v := <-b.sub.Receive():
+				if seen[v] {
+					rep.Failures = append(rep.Failures, failure{"a message reached a subscriber more than once",
+						fmt.Sprintf("big burst: subscriber %d received %d twice", i, v), "c15-stress:accounting", 0, seed})
+					return
+				}
+				seen[v] = true
+			case <-deadline:
+				break recv
+			case <-time.After(5 * time.Second):
+				break recv // nothing more is coming
+			}
+		}
+		if e := b.early.Load(); e > 0 {
+			rep.Failures = append(rep.Failures, failure{"OnTimeout fired before the subscriber's own timeout",
+				fmt.Sprintf("big burst: %d messages outstanding on subscriber %d (buffer %d, timeout 60s): %d were given up (OnTimeout) within seconds; %d of %d arrived",
+					total, i, b.cap, e, len(seen), want), "c15-stress:early-timeout", 0, seed})
+			return
+		}
+		if len(seen) != want {
+			rep.Failures = append(rep.Failures, failure{"a (message, subscriber) pair is not accounted for exactly once",
+				fmt.Sprintf("big burst: subscriber %d (buffer %d, timeout 60s) received %d of %d messages once it started receiving, no OnTimeout", i, b.cap, len(seen), want),
+				"c15-stress:accounting", 0, seed})
+			return
+		}
+		rep.Evaluations += want
+	}
+	if left := waitNoGoroutines(10 * time.Second); left != 0 {
+		rep.Failures = append(rep.Failures, failure{"delivery goroutines remain after everything was delivered",
+			fmt.Sprintf("big burst: %d goroutines of the package left", left), "c15-stress:leak", 0, seed})
+		return
+	}
+	pub.Close()
+	rep.Histogram["big-burst-messages"] += total
+	rep.Samples = append(rep.Samples, fmt.Sprintf("big burst: %d messages from %d publishers outstanding on 3 subscribers (buffers %d, 0, %d) that start receiving afterwards; slowest Publish %v",
+		total, P, subs[0].cap, subs[2].cap, time.Duration(maxLat.Load())))
+}
+
 // ---------- C10: simultaneous closers of one subscriber (many trials in one child process) ----------
 
 func c10burstChild(seed int64, trials int) {
@@ -692,6 +834,22 @@ func c10child(seed int64) {
 			tm = time.Duration(1+rng.Intn(20)) * time.Millisecond
 		}
 		opts = append(opts, publisher.WithTimeout[int](tm))
+		if tm < time.Second && rng.Intn(2) == 0 {
+			// "drop the slow consumer": OnTimeout closes the subscriber (or the publication) from inside the callback
+			whole := rng.Intn(4) == 0
+			opts = append(opts, publisher.OnTimeout(func(int) {
+				if whole {
+					pub.Close()
+				} else {
+					s.sub.Close()
+				}
+			}))
+			s.closers++ // counts as closed by somebody
+			if whole {
+				pubClose = true
+			}
+			res.Hist["subscribers-closing-from-OnTimeout"]++
+		}
 		s.tmo = tm
 		s.sub = pub.Subscribe(s.cfg.cap, opts...)
 		subs[i] = s
@@ -793,8 +951,20 @@ func c10child(seed int64) {
 	if len(neverClosed) > 0 {
 		waitNoGoroutines(10 * time.Second)
 	}
-	for _, s := range subs {
-		s.sub.Close()
+	fdone := make(chan struct{})
+	go func() {
+		for _, s := range subs {
+			s.sub.Close()
+		}
+		close(fdone)
+	}()
+	select {
+	case <-fdone:
+	case <-time.After(10 * time.Second):
+		fail("Close does not return (deadlock)", fmt.Sprintf("S=%d: closing the remaining subscribers still blocked after 10s", S), "c10-stress:close-hangs")
+		out, _ := json.Marshal(res)
+		fmt.Println(string(out))
+		os.Exit(0)
 	}
 	rdone := make(chan struct{})
 	go func() { rwg.Wait(); close(rdone) }()
@@ -949,9 +1119,12 @@ func main() {
 		rng := rand.New(rand.NewSource(*roundSeed))
 		switch *mode {
 		case "c06":
-			roundC06(rng, rep, 0, *roundSeed)
+			roundC06(rng, rep, 0, *roundSeed, nil)
 		case "c15":
 			burstC15(rand.New(rand.NewSource(*roundSeed)), rep, 150, *roundSeed)
+			if len(rep.Failures) == 0 {
+				bigBurstC15(rand.New(rand.NewSource(*roundSeed)), rep, 4000, *roundSeed)
+			}
 			if len(rep.Failures) == 0 {
 				roundC15(rng, rep, 0, *roundSeed)
 			}
@@ -970,6 +1143,16 @@ func main() {
 			trials = 3000
 		}
 		burstC15(rand.New(rand.NewSource(*seed*7919+1)), rep, trials, *seed*7919+1)
+		// pending deliveries per subscriber far above any plausible internal limit
+		bigs := []int{3000 + int(*seed%5)*500}
+		if *tier == "thorough" {
+			bigs = []int{1000, 2000, 4000, 8000, 16000, 32000, 5000, 3000}
+		}
+		for i, n := range bigs {
+			if len(rep.Failures) == 0 {
+				bigBurstC15(rand.New(rand.NewSource(*seed*6700417+int64(i))), rep, n, *seed*6700417+int64(i))
+			}
+		}
 	}
 	if *mode == "c10" && *roundSeed == 0 {
 		// simultaneous closers: three child processes in parallel, thousands of trials each
@@ -1050,11 +1233,39 @@ func main() {
 		rng := rand.New(rand.NewSource(rs))
 		switch *mode {
 		case "c06":
-			roundC06(rng, rep, i, rs)
+			roundC06(rng, rep, i, rs, nil)
 		case "c15":
 			roundC15(rng, rep, i, rs)
 		}
 		rep.Rounds++
+	}
+	if *mode == "c06" && *roundSeed == 0 && len(rep.Failures) == 0 {
+		// size sweep: geometric ranges of subscribers, buffer sizes and messages (thresholds such as 1024)
+		var sw []sizes
+		if *tier == "thorough" {
+			for _, s := range []int{1, 4, 16, 64, 256} {
+				for _, c := range []int{0, 1, 8, 64, 512, 4096} {
+					for _, n := range []int{1, 16, 256, 2048, 16384} {
+						if s*n <= 300000 {
+							sw = append(sw, sizes{S: s, P: 1 + (s+c+n)%4, N: (n + (s+c+n)%4) / (1 + (s+c+n)%4), cap: c})
+						}
+					}
+				}
+			}
+		} else {
+			sw = []sizes{{S: 64, P: 4, N: 40, cap: 2}, {S: 2, P: 3, N: 1500, cap: 2048}, {S: 3, P: 2, N: 2500, cap: 0}}
+		}
+		for i, z := range sw {
+			if len(rep.Failures) > 0 {
+				break
+			}
+			if z.N < 1 {
+				z.N = 1
+			}
+			rs := *seed*15485863 + int64(i)
+			roundC06(rand.New(rand.NewSource(rs)), rep, 1000+i, rs, &z)
+			rep.Rounds++
+		}
 	}
 	sort.Strings(rep.Samples)
 	js, _ := json.MarshalIndent(rep, "", " ")
